@@ -590,14 +590,19 @@ MAP3_TRUST = PROPS["C01"]["trusted"][:3] + [
     "hand-written Gallina model of dim3/{links,sews,basic_ops,orbits}.rs (Map3/Ops3.v); hex grids from the translated tables"]
 PROPS["C02"] = dict(
     translators=True,
-    level="translation_validation",
-    level_text="the 3-map calls (links with the lock-step face walks, sews, allocation, ids, orbits) are transcribed in Gallina and "
-               "compared with the implementation (random histories from free darts, edits of hexahedral grids, all pairs of "
-               "closed/open faces of 1-5 sides); the property (wf3 with the mirror clause; refusal of non-mirrorable faces) is "
-               "an executable Coq predicate applied to every implementation observation, proved to decide exactly wf3 "
-               "(C02_oracle_wf3). Proved for all inputs: the link cores are the programs regenerated from betas.rs; the "
-               "invariant is kept by allocation, slot reuse, removal, data-only transactions and by every step that does not "
-               "report success (C02_invariant_partial). NOT proved: preservation by successful links and sews (the 3-link walks)",
+    level="proof",
+    level_text="Coq theorem C02_history: the 3-map invariant (wf3 with the mirror clause + slots beyond n_darts blank) is kept by EVERY "
+               "history of public calls -- allocation, slot reuse, removal, link / unlink / sew / unsew in dimensions 1, 2, 3, data "
+               "writes, own-transaction or block form, any attribute laws, any injected law failure, any outcome -- made with "
+               "non-null in-use darts (distinct for 2- and 3-links). The 3-link is proved through its lock-step walks "
+               "(C02_three_link: every core of the walk found its darts 3-free, so the glued darts are pairwise distinct -- a dart "
+               "glued to itself makes the next step fail -- and the tests that end the walks close the glued family under the "
+               "successors of both faces with the mirror orientation); 1-links use the 2-map lemmas plus the mirror clause; sews "
+               "are a link between data-only programs. The oracle wf3b decides exactly wf3 (C02_oracle_wf3); the link cores are "
+               "the programs regenerated from betas.rs. Tie: the Gallina transcription of every 3-map call is compared with the "
+               "implementation (random histories, edits of hexahedral grids, all pairs of closed / open faces of 1-5 sides), wf3b "
+               "and the refusal of non-mirrorable faces are applied to every implementation observation (the refusal clause itself "
+               "is decided per observation, not proved)",
     technique="Coq model of the 3-map calls + correspondence + extracted wf3 / mirrorable oracle",
     families=[
         Family("core3-random", "core3", r_core3("random", 1200, 25000, 25, ["--darts", "10"]), 50, [(51, "wf3_step", WF3_CLASSES)]),
